@@ -29,6 +29,7 @@ mod p2;
 mod par;
 mod reffn;
 mod refsem;
+mod replay;
 mod universe;
 mod val;
 
@@ -49,11 +50,11 @@ fn main() {
     let mut i = 2;
     while i < args.len() {
         match args[i].as_str() {
-            "--tier" => {
+            "--tier" if i + 1 < args.len() => {
                 tier = args[i + 1].clone();
                 i += 1;
             }
-            "--replay" => {
+            "--replay" if i + 1 < args.len() => {
                 replay = Some(args[i + 1].clone());
                 i += 1;
             }
@@ -95,7 +96,7 @@ fn main() {
         return;
     }
     if let Some(p) = replay {
-        std::process::exit(c01::replay(&p));
+        std::process::exit(replay::replay(&p));
     }
     let code = match id {
         "C01" => c01::run(&tier),
